@@ -54,9 +54,15 @@ func execC05(seg []Ev) []Ev {
 		return tokJSON(f.TokenizeBuffer(input))
 	}
 	out := make([]Ev, 0, len(seg))
+	kp := &keeper{}
+	var sc *sio.StringScanner
+	curInput := ""
 	for _, in := range seg {
 		op := toStr(in["op"])
 		e := Ev{"op": op}
+		if op != "reuse" && op != "new" {
+			defer func() {}()
+		}
 		switch op {
 		case "new":
 			kind = toStr(in["kind"])
@@ -75,11 +81,32 @@ func execC05(seg []Ev) []Ev {
 			bits = optBits(in["opts"])
 			e["opts"] = optList(bits)
 			setOpts(t, bits)
+			if toBool(orFalse(in["atstart"])) {
+				// directly after the reader was attached (nothing read yet): the stream is the one a new tokenizer with these options yields
+				e["atstart"] = true
+				e["fresh"] = fresh(curInput)
+			}
+		case "rewind": // the same scanner object, reset and attached again
+			e["input"] = cps(curInput)
+			e["fresh"] = fresh(curInput)
+			e["op"] = "setreader"
+			sc.Reset()
+			t.SetReader(sc)
+		case "stream": // the same scanner object, reset and tokenized as a whole
+			e["op"] = "buffer"
+			e["input"] = cps(curInput)
+			e["fresh"] = fresh(curInput)
+			sc.Reset()
+			ts := t.TokenizeStream(sc)
+			e["toks"] = tokJSON(ts)
+			kp.keep("token list of an earlier whole-stream call", func() string { return tokRender(ts) })
 		case "setreader":
 			input := string(toRunes(in["input"]))
 			e["input"] = cps(input)
 			e["fresh"] = fresh(input)
-			t.SetReader(sio.NewStringScanner(input))
+			curInput = input
+			sc = sio.NewStringScanner(input)
+			t.SetReader(sc)
 		case "hasnext":
 			e["ret"] = t.HasNextToken()
 		case "next":
@@ -88,7 +115,9 @@ func execC05(seg []Ev) []Ev {
 			input := string(toRunes(in["input"]))
 			e["input"] = cps(input)
 			e["fresh"] = fresh(input)
-			e["toks"] = tokJSON(t.TokenizeBuffer(input))
+			ts := t.TokenizeBuffer(input)
+			e["toks"] = tokJSON(ts)
+			kp.keep("token list of an earlier whole-buffer call", func() string { return tokRender(ts) })
 		case "reuse":
 			f := c05exec[toStr(in["what"])]
 			if f == nil {
@@ -97,6 +126,7 @@ func execC05(seg []Ev) []Ev {
 			out = append(out, f(in))
 			continue
 		}
+		kp.check(e)
 		out = append(out, e)
 	}
 	return out
@@ -186,6 +216,27 @@ func genC05(g *Gen) {
 						{"op": "setopts", "opts": toAnyList(optList(b))}, {"op": "buffer", "input": cps(x)}, {"op": "setreader", "input": cps(x)}, {"op": "next"}, {"op": "next"},
 						{"op": "setopts", "opts": toAnyList(optList(a))}, {"op": "buffer", "input": cps(x)}, {"op": "setreader", "input": cps(x)}, {"op": "next"}, {"op": "hasnext"}, {"op": "next"}})
 				}
+			}
+		}
+		// (2c) the same scanner object reset and attached again with a look-ahead token pending; options set after the reader
+		for _, x := range pool {
+			for k := 0; k <= 3; k++ {
+				seg := []Ev{{"op": "new", "kind": kind, "opts": []any{}}, {"op": "setreader", "input": cps(x)}}
+				for j := 0; j < k; j++ {
+					seg = append(seg, Ev{"op": "next"})
+				}
+				seg = append(seg, Ev{"op": "hasnext"}, Ev{"op": "stream"}, Ev{"op": "rewind"}, Ev{"op": "hasnext"}, Ev{"op": "next"}, Ev{"op": "hasnext"}, Ev{"op": "rewind"}, Ev{"op": "next"}, Ev{"op": "stream"}, Ev{"op": "buffer", "input": cps(pool[(k+1)%len(pool)])})
+				g.Run("the same scanner reset and attached again:"+kind, seg)
+			}
+			for _, b := range []int{127, 16 | 32 | 64, 1 | 2 | 4 | 8, 64, 32} {
+				seg := []Ev{{"op": "new", "kind": kind, "opts": []any{}}, {"op": "setreader", "input": cps(x)}, {"op": "setopts", "opts": toAnyList(optList(b)), "atstart": true}}
+				for j := 0; j < len(x)+2; j++ {
+					if j%2 == 0 {
+						seg = append(seg, Ev{"op": "hasnext"})
+					}
+					seg = append(seg, Ev{"op": "next"})
+				}
+				g.Run("options set after the reader was attached:"+kind, seg)
 			}
 		}
 		// (3) random longer sequences under option sets and the tokenizer's own defaults
